@@ -81,7 +81,15 @@ func Mint(k *Key, nb, na time.Time, serial int64) *Cert {
 // MintNamed is Mint with a chosen subject common name (certificates of different
 // keys may thus share subject and serial number).
 func MintNamed(k *Key, cn string, nb, na time.Time, serial int64) *Cert {
-	id := fmt.Sprintf("%s/%s/%d/%d/%d", k.Name, cn, nb.Unix(), na.Unix(), serial)
+	return MintUsage(k, cn, nb, na, serial, 0)
+}
+
+// MintUsage is MintNamed with a chosen key-usage profile: 0 digitalSignature+keyEncipherment (the default),
+// 1 keyEncipherment only, 2 no key-usage extension at all, 3 a CA-style certificate (certSign, cRLSign, isCA),
+// 4 digitalSignature restricted to the clientAuth extended usage, 5 dataEncipherment+keyAgreement.
+// XML-DSig trust is by certificate identity and validity period; none of this matters to it.
+func MintUsage(k *Key, cn string, nb, na time.Time, serial int64, profile int) *Cert {
+	id := fmt.Sprintf("%s/%s/%d/%d/%d/%d", k.Name, cn, nb.Unix(), na.Unix(), serial, profile)
 	certMu.Lock()
 	if c, ok := certCache[id]; ok {
 		certMu.Unlock()
@@ -94,6 +102,18 @@ func MintNamed(k *Key, cn string, nb, na time.Time, serial int64) *Cert {
 		NotBefore:    nb, NotAfter: na,
 		KeyUsage:              x509.KeyUsageDigitalSignature | x509.KeyUsageKeyEncipherment,
 		BasicConstraintsValid: true,
+	}
+	switch profile {
+	case 1:
+		tmpl.KeyUsage = x509.KeyUsageKeyEncipherment
+	case 2:
+		tmpl.KeyUsage = 0
+	case 3:
+		tmpl.KeyUsage, tmpl.IsCA = x509.KeyUsageCertSign|x509.KeyUsageCRLSign, true
+	case 4:
+		tmpl.KeyUsage, tmpl.ExtKeyUsage = x509.KeyUsageDigitalSignature, []x509.ExtKeyUsage{x509.ExtKeyUsageClientAuth}
+	case 5:
+		tmpl.KeyUsage = x509.KeyUsageDataEncipherment | x509.KeyUsageKeyAgreement
 	}
 	der, err := x509.CreateCertificate(rand.Reader, tmpl, tmpl, k.Signer.Public(), k.Signer)
 	if err != nil {
